@@ -49,7 +49,24 @@ func replayFor(o *Obligation, repoDir, verifDir string) *replayer {
 	return nil
 }
 
+type replayResult struct {
+	out    string
+	failed bool
+	err    error
+}
+
+var replayCache = map[string]replayResult{}
+
 func (r *replayer) run() (string, bool, error) {
+	if c, ok := replayCache[r.name]; ok {
+		return c.out, c.failed, c.err
+	}
+	out, failed, err := r.runOnce()
+	replayCache[r.name] = replayResult{out, failed, err}
+	return out, failed, err
+}
+
+func (r *replayer) runOnce() (string, bool, error) {
 	tmp, err := os.MkdirTemp("", "govc-replay-")
 	if err != nil {
 		return "", false, err
